@@ -161,7 +161,7 @@ func C11(tier rt.Tier) int {
 	if tier == rt.Quick {
 		runs = []cfg{
 			{name: "distinct-values-3keys", keys: []int{0, 2, 5}, vals: []string{"a", "b"}, levels: []int{0, 1, 64}, gc: true, rootOp: true, depth: 6, c11: true, maxNoDup: 4},
-			{name: "4keys", keys: []int{0, 1, 2, 4}, vals: []string{"a"}, levels: []int{0, 64}, gc: true, rootOp: true, depth: 6, c11: true, maxNoDup: 4},
+			{name: "4keys", keys: []int{0, 1, 2, 4}, vals: []string{"a", "c"}, levels: []int{0, 64}, gc: true, rootOp: true, depth: 6, c11: true, maxNoDup: 4},
 			// release in one commit, identical re-creation in a later commit, GC passes anywhere (needs 8+ operations)
 			{name: "recreate-across-commits", keys: []int{0, 5}, vals: []string{"a"}, levels: []int{0}, gc: true, depth: 9, c11: true, maxNoDup: 5},
 			// equal values under different keys: stored value nodes (and equal subtrees) are shared between live positions
